@@ -53,7 +53,7 @@ func newTableParser(bookName, alias, relSlashPath string, gen *Generator) *table
 // mergeBookOptions records the book-level ("#" row of the metasheet) header
 // options, which take precedence over the global ones, so that confgen reads
 // the same header rows and separators as protogen did.
-func (p *tableParser) mergeBookOptions(bookOpts *tableaupb.WorkbookOptions) {
+func (p *bookParser) mergeBookOptions(bookOpts *tableaupb.WorkbookOptions) {
 	if bookOpts == nil {
 		return
 	}
